@@ -76,6 +76,8 @@ func main() {
 	c.Corpus = *corpus
 	c.Repo = *repo
 	c.Verif = *verif
+	c.Partial = *out + ".partial"
+	os.Remove(c.Partial)
 	c.Ops = map[string]bool{}
 	for _, o := range strings.Split(*ops, ",") {
 		if o != "" {
